@@ -213,4 +213,18 @@ PROPS = {
   'explanation': 'see Properties/C20.v: blocks tile the tile data (C20_blocks_partition), sync of any local archive yields the remote file (C20_converges), equal archives want nothing (C20_equal_no_download), '
                  'dry runs write nothing, batching keeps the ranges, every crash point leaves the old archive or the complete new file.',
  },
+ 'C06': {
+  'rule': 'MBTiles databases written with the sqlite library the repo uses: formats pbf/png/jpg/webp/avif/unknown/absent (and a second format row), 1..25 tile rows at zooms 0..6 and 20..30 incl. the edges of the grid, '
+          'duplicate contents, empty blobs, already-gzipped and half-magic blobs, rows and metadata rows in random insertion order, all blobs empty, no rows; metadata rows bounds/center as decimal literals '
+          'with 0..8 decimals (proper, inverted and unparsable boxes; center zoom inside the tiles\' zoom range, out of int8 range or missing), json (vector_layers, tilestats, overriding name), compression, scheme, '
+          'descriptive rows with HTML and non-ASCII characters; dedup on/off. Non-trivial: more than one row; distinct by case line',
+  'trusted_base': [GZIP + ' (the model takes the gzip stream of each raw pbf blob from a table of the real outputs; the oracle gunzips them back)', 'sqlite (zombiezen) and the MBTiles schema', 'roaring64 set modelled as a sorted duplicate-free list',
+                   'fnv128a modelled as an injective hash (no-collision hypothesis in the theorems; identity in the driver)', 'encoding/json: metadata compared member by member as canonical JSON',
+                   'Flocq binary64 for int32(f*1e7) of bounds and center (truncation toward zero, as the Go code does)'],
+  'assumptions': ['tile rows are valid (z <= 31, column and row below 2^z) and unique per (z, column, row)',
+                  'a declared center zoom lies within the zoom range of the tiles (the property\'s own side condition); bounds agree with the source to within one E7 unit because Convert truncates'],
+  'explanation': 'see Properties/C06.v: C06_tile_map (every non-empty row at its flipped id, encoded; nothing else addressed), C06_dedup_irrelevant, C06_verifies (counts, clustered layout, zoom range), C06_header, C06_flip; '
+                 'the convert model is compared with the real Convert on header projection, entries, tile data and metadata members, and the oracle re-derives the expected tile map from the rows.',
+  'allowed_axioms': ['sig_not_dec', 'sig_forall_dec', 'functional_extensionality_dep', 'classic'],
+ },
 }
